@@ -34,17 +34,33 @@ using std::vector;
 static jmp_buf g_abort_jmp;
 static bool g_abort_armed = false;
 static string g_abort_what;
+// call-level seam: with an allocation fault attached, abort()/assert inside that one call is an outcome (the unchanged
+// tree asserts on a failed allocation), compared with what a fresh object does under the same fault
+static jmp_buf g_call_jmp;
+static bool g_call_armed = false;
 extern "C" void __wrap_abort(void) {
+    if (g_call_armed) { g_call_armed = false; longjmp(g_call_jmp, 1); }
     if (g_abort_armed) { g_abort_what = "abort() called inside the library"; longjmp(g_abort_jmp, 1); }
     _Exit(70);
 }
 extern "C" void __wrap___assert_fail(const char *expr, const char *file, unsigned line, const char *fn) {
+    if (g_call_armed) { g_call_armed = false; longjmp(g_call_jmp, 2); }
     if (g_abort_armed) {
         char b[256]; snprintf(b, sizeof b, "assertion `%s' failed at %s:%u (%s)", expr, file, line, fn ? fn : "?");
         g_abort_what = b; longjmp(g_abort_jmp, 2);
     }
     fprintf(stderr, "assert outside SUT: %s %s:%u\n", expr, file, line);
     _Exit(71);
+}
+
+// eav_is_email with the mf-th allocation of the library failing; returns false if the library aborted / asserted
+extern "C" int shim_is_email(void *e, const char *s, size_t n);
+static __attribute__((noinline)) bool guarded_is_email(void *e, const char *s, size_t n, int mf, int *ret) {
+    g_sim_af_at = mf; g_sim_af_n = 0; g_sim_af_fired = 0;
+    g_call_armed = true;
+    if (setjmp(g_call_jmp) == 0) { *ret = shim_is_email(e, s, n); g_call_armed = false; g_sim_af_at = 0; return true; }
+    g_sim_af_at = 0;
+    return false;
 }
 
 // ------------------------------------------------------------------ plans
@@ -56,6 +72,7 @@ static const char *KNAME[NKINDS] = { "SET_RFC", "SET_TLD", "SET_ALLOW", "SETUP",
 struct Op {
     Kind k = SET_RFC; int o = 0; long long v = 0; string a;
     bool f_on = false; int f_code = 0; int f_buf = 0; int f_at = 1; int sf = 0;
+    int mf = 0;     // IS_EMAIL: the mf-th allocation made by the library during the call fails; the object is retired afterwards
 };
 struct Plan {
     string prop = "C13", cfg = "nofault";
@@ -72,6 +89,7 @@ static sj::Value op_to_json(const Op &op) {
     if (op.k == IS_EMAIL || op.k == LOW_6531 || op.k == LOW_UTF8DOM) j.set("a", op.a);
     if (op.f_on) { sj::Value f = sj::Value::object(); f.set("code", op.f_code); f.set("buf", op.f_buf); if (op.f_at != 1) f.set("at", op.f_at); j.set("f", f); }
     if (op.sf) j.set("sf", op.sf);
+    if (op.mf) j.set("mf", op.mf);
     return j;
 }
 static sj::Value plan_to_json(const Plan &p) {
@@ -99,7 +117,7 @@ static Plan plan_from_json(const sj::Value &j) {
         op.k = (Kind)ki; op.o = (int)e.geti("o"); op.v = e.geti("v"); op.a = e.gets("a");
         const sj::Value *f = e.get("f");
         if (f && f->kind == sj::Value::Obj) { op.f_on = true; op.f_code = (int)f->geti("code"); op.f_buf = (int)f->geti("buf"); op.f_at = (int)f->geti("at", 1); }
-        op.sf = (int)e.geti("sf");
+        op.sf = (int)e.geti("sf"); op.mf = (int)e.geti("mf");
         if (op.o < 0) op.o = 0;
         op.o %= p.nobj;                 // ops are interpreted modulo what exists
         p.ops.push_back(op);
@@ -182,6 +200,16 @@ static void build_pools() {
             { string v = n; v.insert(v.size() / 2, "\xc2\xad"); doms.push_back(v); }
             { string v = n; for (auto &ch : v) if (ch >= 'a' && ch <= 'z' && (&ch - &v[0]) % 2 == 0) ch = (char)(ch - 32); doms.push_back(v); }
         }
+    }
+    {   // U-label spellings whose converted form is a DEGENERATE ASCII name: code points that IDNA mapping deletes (soft hyphen,
+        // ZWSP, variation selector, word joiner) standing alone as a label or as the whole domain convert - successfully - to
+        // "", ".", "a.", ".com", "a..com"; what happens then is decided after the conversion, in three separate copies
+        const char *ign[] = { "\xc2\xad", "\xe2\x80\x8b", "\xef\xb8\x8f", "\xe2\x81\xa0" };
+        for (auto g : ign) {
+            string G1 = g;
+            for (string d : { G1, G1 + G1, G1 + ".com", "a." + G1, "a." + G1 + ".com", G1 + "." + G1, "example.com." + G1, G1 + "example.org", "\xd0\xb8." + G1, G1 + ".\xd1\x80\xd1\x84" }) doms.push_back(d);
+        }
+        for (auto d : { "\xe3\x80\x82", "\xef\xbc\x8e", "\xe3\x80\x82\xe3\x80\x82", "a\xe3\x80\x82", "\xe3\x80\x82" "com" }) doms.push_back(d);
     }
     {   // a > 253 octet domain and an exactly-253 one
         string d; while (d.size() < 250) d += "abcdefghi.";
@@ -343,6 +371,10 @@ static Plan gen_history(const string &prop, const string &cfg, uint64_t seed, lo
     unsigned frate = faults ? 2 + (unsigned)sim_below(&f, 59) : 0;       // percent of pool addresses that do not convert
     std::map<string, Op> world;
     if (frate) for (auto &a : pool) if (!world.count(a)) { Op w0; if (sim_below(&f, 100) < frate) draw_fault(f, w0); world[a] = w0; }
+    // failing allocations inside eav_is_email (C13, one fault plan in three): the unchanged tree asserts; whatever the
+    // library does instead must be what a fresh object does under the same failure
+    sim_rng af = sim_derive(rs, 7);
+    unsigned afrate = (prop == "C13" && cfg == "fault" && sim_below(&af, 3) == 0) ? 3 + (unsigned)sim_below(&af, 25) : 0;
     unsigned sfrate = (cfg == "ctxfault") ? 5 + (unsigned)sim_below(&f, 50) : 0;
     // most objects start by confirming a mode, so that work happens
     for (int o = 0; o < p.nobj; o++) {
@@ -364,7 +396,15 @@ static Plan gen_history(const string &prop, const string &cfg, uint64_t seed, lo
         case SET_TLD: op.v = (long long)sim_below(&w, 2); break;
         case SET_ALLOW: op.v = draw_allow(w); break;
         case SETUP: if (sfrate && sim_below(&f, 100) < sfrate) op.sf = 1 + (int)sim_below(&f, 2); break;
-        case IS_EMAIL: op.a = pick(w, pool); if (frate) { const Op &w0 = world[op.a]; op.f_on = w0.f_on; op.f_code = w0.f_code; op.f_buf = w0.f_buf; op.f_at = w0.f_at; } break;
+        case IS_EMAIL: op.a = pick(w, pool); if (frate) { const Op &w0 = world[op.a]; op.f_on = w0.f_on; op.f_code = w0.f_code; op.f_buf = w0.f_buf; op.f_at = w0.f_at; }
+            if (afrate && sim_below(&af, 100) < afrate) {
+                // a failing allocation inside this call; the object is retired afterwards, so give it a mode again
+                { static const int MF[] = { 1, 1, 1, 2, 3 }; op.mf = MF[sim_below(&af, 5)]; } p.ops.push_back(op);
+                Op a2; a2.k = SET_RFC; a2.o = op.o; a2.v = (long long)sim_below(&af, 4); p.ops.push_back(a2);
+                Op b2; b2.k = SETUP; b2.o = op.o; p.ops.push_back(b2);
+                continue;
+            }
+            break;
         default: break;
         }
         p.ops.push_back(op);
@@ -497,8 +537,10 @@ struct Outcome {
     int has_extra = 0; bool lp_null = true, dm_null = true; string lpart, domain;
     // converter view
     int conv_calls = 0, conv_fired = 0, conv_has_last = 0, conv_last = 0;
+    bool aborted = false, alloc_fired = false;
     string str() const {
         char b[256];
+        if (aborted) return "ABORTED inside the library (abort/assert)";
         snprintf(b, sizeof b, "ret=%d ec=%d res=%d v4=%d v6=%d dom=%d rc=%d idn_rc=%ld", ret, errcode, present, v4, v6, dom, rc, idn_rc);
         string s = b; s += " msg=" + (errstr_null ? string("(null)") : errstr);
         if (has_extra) s += " lpart=" + (lp_null ? string("(null)") : lpart) + " domain=" + (dm_null ? string("(null)") : domain);
@@ -506,6 +548,7 @@ struct Outcome {
     }
     string neutral() const {   // comparable across backends
         char b[256];
+        if (aborted) return "ABORTED";
         bool idn_ok = (idn_rc == (conv_has_last ? shim_map_code(conv_last) : 0));
         snprintf(b, sizeof b, "ret=%d ec=%d res=%d v4=%d v6=%d dom=%d rc=%d conv=%d/%d idnrc_ok=%d", ret, errcode, present, v4, v6, dom, rc,
                  conv_has_last, conv_has_last ? conv_last : 0, (int)idn_ok);
@@ -518,6 +561,8 @@ struct Outcome {
         return s;
     }
     bool same(const Outcome &o, string &why) const {
+        if (aborted != o.aborted) { why = "abort inside the library"; return false; }
+        if (aborted) return true;
         if (ret != o.ret) { why = "return value"; return false; }
         if (errcode != o.errcode) { why = "errcode"; return false; }
         if (errstr_null != o.errstr_null || errstr != o.errstr) { why = "eav_errstr text"; return false; }
@@ -534,7 +579,7 @@ struct Viol { string cls, detail; int op_index = -1; };
 
 struct Stats {
     uint64_t plans = 0, ops = 0, kind[NKINDS] = { 0 }, is_email_exec = 0, is_email_skipped = 0, refs = 0;
-    uint64_t fault_attached = 0, fault_fired = 0, fired_buf[3] = { 0 }, sf_attached = 0, sf_fired = 0;
+    uint64_t fault_attached = 0, fault_fired = 0, fired_buf[3] = { 0 }, sf_attached = 0, sf_fired = 0, af_attached = 0, af_fired = 0, af_aborted = 0;
     std::map<int, uint64_t> fired_code;
     uint64_t mode_switch[5][4] = { { 0 } };     // from (none=4) -> to, followed by an executed IS_EMAIL
     uint64_t setup_ok = 0, setup_invalid = 0, free_init = 0, errstr_checked = 0, errstr_after_other = 0;
@@ -556,8 +601,9 @@ struct ObjModel {
 };
 
 struct RefKey {
-    int mode, tld; long long allow; string a; bool f_on; int code, buf; int at = 1;
+    int mode, tld; long long allow; string a; bool f_on; int code, buf; int at = 1; int mf = 0;
     bool operator<(const RefKey &o) const {
+        if (mf != o.mf) return mf < o.mf;
         if (at != o.at) return at < o.at;
         if (mode != o.mode) return mode < o.mode;
         if (tld != o.tld) return tld < o.tld;
@@ -570,6 +616,10 @@ struct RefKey {
 };
 
 struct Exec {
+    // release builds (-DNDEBUG) compile the library's "allocation succeeded" asserts out: a failed allocation is then a NULL
+    // dereference on the unchanged tree, which no caller can observe as an outcome - allocation faults are not injected there
+    static Plan strip_mf(Plan q) { if (shim_has_ndebug()) for (auto &o : q.ops) o.mf = 0; return q; }
+    const Plan plan_own;
     const Plan &plan;
     bool want_log;
     vector<string> log, nlog;
@@ -600,7 +650,9 @@ struct Exec {
     void caller_done() { if (tight) { free(tight); tight = nullptr; } }
     int cur_op = -1;
 
-    Exec(const Plan &p, bool l) : plan(p), want_log(l) { esz = shim_eav_size(); is_idnkit = !strcmp(shim_backend(), "idnkit"); }
+    // release builds (-DNDEBUG) compile the library's "allocation succeeded" asserts out: a failed allocation is then a NULL
+    // dereference on the unchanged tree, which no caller can observe as an outcome - allocation faults are not injected there
+    Exec(const Plan &p, bool l) : plan_own(strip_mf(p)), plan(plan_own), want_log(l) { esz = shim_eav_size(); is_idnkit = !strcmp(shim_backend(), "idnkit"); }
 
     void rec(const string &local, const string &neutral) {
         h_local = sim_fnv1a(h_local, local.data(), local.size()); h_local = sim_fnv1a(h_local, "\n", 1);
@@ -652,8 +704,18 @@ struct Exec {
         const char *ap = caller_copy(0, k.a);     // reference runs hold the address like the history does
         g_sim_tag = SIM_TAG_REF;
         poison_errno();
-        int ret = shim_is_email(e, ap, k.a.size());
-        capture(e, ret, o);
+        int ret = 0;
+        if (!guarded_is_email(e, ap, k.a.size(), k.mf, &ret)) {
+            // the fresh object aborts under this fault: that is the reference outcome; the object is abandoned as it is
+            g_sim_tag = SIM_TAG_NONE; g_sim_in_free = 0;
+            o.aborted = true; o.alloc_fired = g_sim_af_fired != 0;
+            caller_done();
+            sim_ledger_forget(SIM_TAG_REF); sim_ctx_forget(SIM_TAG_REF);
+            drain_reports();
+            free(e); ST.refs++;
+            return o;
+        }
+        capture(e, ret, o); o.alloc_fired = g_sim_af_fired != 0;
         g_sim_tag = SIM_TAG_NONE;
         caller_done();
         g_sim_tag = SIM_TAG_REF;
@@ -757,7 +819,10 @@ struct Exec {
                     }
                     break;
                 case IS_EMAIL:
-                    if (m.confirmed >= 0) keys.push_back(RefKey{ m.confirmed, m.tld, m.allow, op.a, op.f_on, op.f_code, op.f_buf, op.f_at });
+                    if (m.confirmed >= 0) {
+                        keys.push_back(RefKey{ m.confirmed, m.tld, m.allow, op.a, op.f_on, op.f_code, op.f_buf, op.f_at, op.mf });
+                        if (op.mf) { m = ObjModel(); m.rfc = def_rfc; m.tld = def_tld; m.allow = def_allow; }     // retired after the call, whatever it did
+                    }
                     break;
                 case LOW_6531:
                     if (m.confirmed == 3) keys.push_back(RefKey{ 3, op.v ? 1 : 0, -1, op.a, op.f_on, op.f_code, op.f_buf, op.f_at });
@@ -881,15 +946,34 @@ struct Exec {
         } break;
         case IS_EMAIL: {
             if (m.confirmed < 0) { ST.is_email_skipped++; rec(pre + " skipped (no confirmed mode)", pre + " skipped"); break; }
-            RefKey k{ m.confirmed, m.tld, m.allow, op.a, op.f_on, op.f_code, op.f_buf, op.f_at };
+            RefKey k{ m.confirmed, m.tld, m.allow, op.a, op.f_on, op.f_code, op.f_buf, op.f_at, op.mf };
             if (op.f_on) ST.fault_attached++;
+            if (op.mf) ST.af_attached++;
             sim_conv_begin(op.f_on, op.f_code, op.f_buf); sim_conv_at(op.f_at);
             const char *ap = caller_copy(op.o, op.a);
             std::set<void *> prev_blocks = result_blocks(op.o);
             g_sim_tag = op.o;
             poison_errno();
-            int ret = shim_is_email(e, ap, op.a.size());
-            Outcome o; capture(e, ret, o);
+            int ret = 0; Outcome o;
+            if (!guarded_is_email(e, ap, op.a.size(), op.mf, &ret)) {
+                g_sim_tag = SIM_TAG_NONE; g_sim_in_free = 0;
+                o.aborted = true; o.alloc_fired = g_sim_af_fired != 0;
+                caller_done();
+                ST.is_email_exec++; ST.af_aborted++; if (o.alloc_fired) ST.af_fired++;
+                rec(pre + " mode=" + std::to_string(m.confirmed) + " mf=" + std::to_string(op.mf) + " a=<" + op.a + "> " + o.str(), pre + " mode=" + std::to_string(m.confirmed) + " " + o.neutral());
+                auto it0 = ref_pre.find(k);
+                if (it0 == ref_pre.end()) { viol("harness:missing-reference", "dry model pass and execution disagree"); break; }
+                ST.outcome_cmp++; nontrivial_cmp = true;
+                if (!it0->second.aborted) viol(o.alloc_fired ? "C13:outcome-differs-from-fresh-object" : "C13:abort-inside-library", "eav_is_email('" + op.a + "') aborts on the reused object, a fresh object with the same settings" + (op.mf ? " under the same allocation failure" : "") + " does not: fresh {" + it0->second.str() + "}");
+                // the object is abandoned as the abort left it
+                sim_ledger_forget(op.o); sim_ctx_forget(op.o);
+                sim_fill(e, esz);
+                g_sim_tag = op.o; shim_init(e); g_sim_tag = SIM_TAG_NONE;
+                m = ObjModel(); m.rfc = def_rfc; m.tld = def_tld; m.allow = def_allow;
+                break;
+            }
+            capture(e, ret, o); o.alloc_fired = g_sim_af_fired != 0;
+            if (o.alloc_fired) ST.af_fired++;
             g_sim_tag = SIM_TAG_NONE;
             caller_done();
             ST.is_email_exec++; ST.errcodes_seen.insert(o.errcode);
@@ -910,6 +994,18 @@ struct Exec {
             if (o.conv_fired) check_containment("eav_is_email", op, 1, o);
             check_ledger_obj(op.o, "after eav_is_email", prev_blocks);
             m.has_last = true; m.last = o; m.failed_setup_since = false; m.last_class = outcome_class(o);
+            if (op.mf) {
+                // an allocation fault was attached: the object is retired whatever happened (the plan's meaning must not
+                // depend on how the library reacted), through the ordinary eav_free so that nothing may be left behind
+                g_sim_tag = op.o; g_sim_in_free = 1; shim_free(e); g_sim_in_free = 0; g_sim_tag = SIM_TAG_NONE;
+                drain_reports();
+                if (sim_ledger_unreachable_live(op.o) != 0) viol("C13:eav_free-leaves-allocation", "after a failed allocation inside eav_is_email, eav_free leaves blocks of the object allocated");
+                sim_ledger_retag(op.o, 999);
+                if (sim_ctx_live_for_tag(op.o) != 0) { viol("C18:context-not-released-by-eav_free", "resolver context still live after eav_free"); sim_ctx_retag(op.o, 999); }
+                sim_fill(e, esz);
+                g_sim_tag = op.o; shim_init(e); g_sim_tag = SIM_TAG_NONE;
+                m = ObjModel(); m.rfc = def_rfc; m.tld = def_tld; m.allow = def_allow;
+            }
         } break;
         case ERRSTR: {
             g_sim_tag = op.o;
@@ -1069,6 +1165,7 @@ static sj::Value stats_json() {
     j.set("containment_checks", ST.contain_checks); j.set("ledger_checks", ST.ledger_checks);
     j.set("low_level_calls", ST.low_exec);
     j.set("idn_fault_attached", ST.fault_attached); j.set("idn_fault_fired", ST.fault_fired);
+    j.set("alloc_fault_attached", ST.af_attached); j.set("alloc_fault_fired", ST.af_fired); j.set("calls_aborted_inside_library", ST.af_aborted);
     sj::Value fb = sj::Value::object(); fb.set("A_output_untouched", ST.fired_buf[0]); fb.set("B_buffer_produced", ST.fired_buf[1]); fb.set("C_converted_then_failed", ST.fired_buf[2]);
     j.set("idn_fault_fired_by_buffer_mode", fb);
     sj::Value fc = sj::Value::object(); for (auto &kv : ST.fired_code) fc.set(std::to_string(kv.first), kv.second);
